@@ -748,7 +748,11 @@ type c17Case struct {
 	meta   *vk.CfgMeta
 	desc   []string
 	ladder [3]string // builder, n, tail
+	pair   *c17Case  // class stray: the same document without the inserted character
 }
+
+// characters tried as strays (class G); some belong to the token alphabet, some do not
+var c17Strays = []string{";", "=", "|", ">", "<", "&", "?", "`", "~", "$", "^", "%", "@", "\\", "\x00", "\x7f", "\x01", "+", "*", "é"}
 
 var (
 	c17QuotedRe  = regexp.MustCompile(`"(\\.|[^"\\])*"`)
@@ -1876,6 +1880,19 @@ func TestVerifC17(t *testing.T) {
 			txt, flavour := vk.GenBytes(r, validTexts[r.IntN(len(validTexts))])
 			add(&c17Case{class: "bytes:" + flavour, text: txt, in: c17In{Build: true}})
 		}
+		// (G) one stray character between two tokens of a valid configuration (never inside a quoted
+		// string or a comment). Whether the character belongs to the token alphabet or not, it is
+		// written, so it cannot vanish: the text is rejected, or its parse result differs from the
+		// one of the text without it ("correspond one-to-one ... to what is written").
+		for i, n := 0, vk.Scale(800, 800); i < n; i++ {
+			toks := cfgDocs[r.IntN(len(cfgDocs))].Tokens()
+			base := &c17Case{class: "straybase", text: vk.Layout(toks, r, 0)}
+			add(base)
+			ch := c17Strays[r.IntN(len(c17Strays))]
+			k := r.IntN(len(toks) + 1)
+			t2 := append(append(append([]vk.CTok{}, toks[:k]...), vk.CTok{T: ch, K: 'p'}), toks[k:]...)
+			add(&c17Case{class: "stray", text: vk.Layout(t2, r, 0), desc: []string{fmt.Sprintf("inserted %q before token %d of %d", ch, k, len(toks))}, pair: base})
+		}
 		if round == 0 {
 			// ... and the COMPLETE single-edit neighbourhood of small bases
 			for _, base := range vk.NearMissBases {
@@ -1969,6 +1986,21 @@ func TestVerifC17(t *testing.T) {
 				}
 			}
 			j.judgeText(c, o)
+			if c.class == "stray" && c.pair != nil {
+				if ob, ok := res[c.pair.in.ID]; ok && ob.Parse.St == "ok" {
+					switch {
+					case o.Parse.St != "ok":
+						m.Count("stray_character_rejected", 1)
+					case o.Dump != ob.Dump:
+						m.Count("stray_character_became_part_of_the_result", 1)
+					default:
+						w := c17TextWitness(c.text)
+						w["edits"], w["text_without_the_character"] = c.desc, c.pair.text
+						j.report("stray-character-vanished", "a text with an extra character between two tokens is accepted and parses to exactly what the text without it parses to: the character is silently dropped", w)
+					}
+					m.Distinct("stray|" + c.desc[0][:12] + "|" + o.Parse.St)
+				}
+			}
 			if c.class == "ladder" {
 				n, _ := strconv.Atoi(c.ladder[1])
 				m.Distinct("ladder|" + c.ladder[0] + "|" + c.ladder[2] + "|" + fmt.Sprint(n >= limit, n > limit))
